@@ -305,7 +305,8 @@ func init() {
 			}
 			j.Workers = 16
 			d := hjp("internal/app", "C13.dir", "H_C13_dir", "a shared directory with a sub-directory and a sibling whose name extends the sub-directory's")
-			return []*Job{j, d}
+			lk := hjp("internal/app", "C13.links", "H_C13_links", "a shared directory containing a symbolic link to a file (and optionally a dangling one)")
+			return []*Job{j, d, lk}
 		},
 	})
 
